@@ -53,6 +53,60 @@ def split_join_pairing(fn: ast.FunctionDef):
 ANY_BOUNDARY = object()
 
 
+class _Scenarios:
+    """load_includes evaluated by PAI on a virtual file system: ``files`` maps path terms to texts; the
+    lines of every text are opaque atoms (any line that is not an INCLUDE directive) or literal
+    INCLUDE lines; os.path functions build terms (ABS / JOIN / DIR), isabs looks at the leading '/'."""
+
+    def __init__(self, e):
+        self.files: dict = {}
+        self.opened: list = []
+
+        def key(p):
+            return p if isinstance(p, str) else p.describe()
+
+        def open_file(I_, self_obj, args, kwargs):
+            k = key(args[0])
+            self.opened.append(k)
+            if k not in self.files:
+                raise pai.PyExc("IOError", (k,))
+            return self.files[k]
+
+        def term(name):
+            return lambda fr, so, args, kw: name + "(" + ",".join(key(a) for a in args) + ")"
+
+        stubs = {"parser.Parser.open_file": open_file, "ext:os.path.isabs": lambda fr, so, a, k: key(a[0]).startswith("/"), "ext:os.path.abspath": term("ABS"), "ext:os.path.join": term("JOIN"), "ext:os.path.dirname": term("DIR"), "ext:os.getcwd": lambda *a: "/cwd", "ext:os.sep": "/"}
+        self.I = e.interp(stubs=stubs, allow_fork=False, max_depth=60)
+
+    @staticmethod
+    def text(*parts) -> SStr:
+        out: list = []
+        for i, p_ in enumerate(parts):
+            if i:
+                out.append("\n")
+            if p_.lower().lstrip().startswith("include"):
+                out.append(p_)
+            else:
+                out.append(Atom(p_, nonempty=True, first=CC.of("ABCDEFGHJKLMNOPQRSTUVWXYZ"), excludes=frozenset("\n\r")))
+        return SStr(out)
+
+    def run(self, text: SStr, fn):
+        self.opened = []
+        outs = self.I.explore("parser.Parser.load_includes", lambda: (pai.Inst("parser.Parser"), [text], {"fn": fn} if fn is not None else {}))
+        if len(outs) != 1:
+            raise AnalysisError(f"load_includes forks on the scenario: {[o.assumptions for o in outs]}")
+        return outs[0], list(self.opened)
+
+
+def _limit_value(repo, node: ast.expr):
+    """The integer a comparator stands for: a literal, or a module-level constant of parser.py."""
+    try:
+        v = fold(node, lambda n: repo._const_lookup(repo.module("parser"), n))
+    except Exception:
+        return None
+    return v if isinstance(v, int) and not isinstance(v, bool) else None
+
+
 def run(ctx: Ctx) -> None:
     e = models.env(ctx)
     repo, facts = ctx.repo, e.facts
@@ -65,9 +119,17 @@ def run(ctx: Ctx) -> None:
     # ---- I1 bounded recursion ---------------------------------------------------------------
     ctx.rule("I1", f"depth counter: default 0, incremented by exactly 1 at the only recursive call, and a raise guarded by 'counter == {LIMIT}' precedes the file read and the recursion; no external caller passes the counter", 5)
     depth = None
+    # the depth counter, found by role: the parameter the recursive call passes as <itself> + 1 (or the one named for nesting)
+    for cs0 in facts.calls["parser.Parser.load_includes"]:
+        if cs0.target != "parser.Parser.load_includes":
+            continue
+        for pn, a0 in bind_args(cs0.node, fn, skip_self=True).items():
+            if isinstance(a0, ast.BinOp) and isinstance(a0.op, ast.Add) and any(isinstance(x, ast.Name) and x.id == pn for x in (a0.left, a0.right)):
+                depth = pn
     for a, d in zip(fn.args.args[len(fn.args.args) - len(fn.args.defaults) :], fn.args.defaults):
-        if a.arg.startswith("_nested") or "nest" in a.arg:
+        if depth is None and (a.arg.startswith("_nested") or "nest" in a.arg or "depth" in a.arg):
             depth = a.arg
+        if a.arg == depth:
             ctx.check(isinstance(d, ast.Constant) and d.value == 0, "I1", "counter default", loc(fn), "default 0", f"default of {a.arg} is {norm(d)}, not 0")
     if depth is None:
         raise AnalysisError("anchor vanished: depth counter parameter of load_includes")
@@ -87,11 +149,11 @@ def run(ctx: Ctx) -> None:
         if isinstance(st, ast.Raise):
             for g in gs:
                 t = g.test
-                if g.positive and isinstance(t, ast.Compare) and len(t.ops) == 1 and isinstance(t.left, ast.Name) and t.left.id == depth and isinstance(t.comparators[0], ast.Constant):
+                if g.positive and isinstance(t, ast.Compare) and len(t.ops) == 1 and isinstance(t.left, ast.Name) and t.left.id == depth and _limit_value(repo, t.comparators[0]) is not None:
                     guard_raises.append((st, t))
     okg = False
     for st, t in guard_raises:
-        c = t.comparators[0].value
+        c = _limit_value(repo, t.comparators[0])
         if (isinstance(t.ops[0], ast.Eq) and c == LIMIT) or (isinstance(t.ops[0], ast.GtE) and c == LIMIT) or (isinstance(t.ops[0], ast.Gt) and c == LIMIT - 1):
             okg = True
     ctx.check(okg, "I1", f"raise guarded by {depth} == {LIMIT}", loc(guard_raises[0][0]) if guard_raises else loc(fn), "", f"no raise guarded by {depth} reaching {LIMIT} (found {[norm(t) for _, t in guard_raises]}): nesting is not bounded at the documented 5 levels")
@@ -114,12 +176,32 @@ def run(ctx: Ctx) -> None:
     # the text spliced in for an INCLUDE line is the result of the recursive call made for that line
     splice_ok = True
     splice_desc = []
-    for n in ast.walk(fn):
-        if isinstance(n, ast.Assign) and len(n.targets) == 1 and isinstance(n.targets[0], ast.Subscript) and isinstance(n.targets[0].value, ast.Name) and n.targets[0].value.id == "includes":
-            direct = any(n.value is r.node for r in rec_calls)
-            splice_desc.append(norm(n.value)[:60])
-            splice_ok = splice_ok and direct
-    ctx.check(splice_ok and bool(splice_desc), "I1", "replacement text is the recursive expansion of that very line", loc(fn), "", f"the replacement stored for an INCLUDE line is {splice_desc}, not the result of the recursive call for that line (at depth + 1)")
+    parents = {}
+    for par in ast.walk(fn):
+        for ch in ast.iter_child_nodes(par):
+            parents[ch] = par
+    # the enumerate index of the loop over the lines
+    idx_vars = {n.target.elts[0].id for n in ast.walk(fn) if isinstance(n, ast.For) and isinstance(n.iter, ast.Call) and dotted(n.iter.func) == "enumerate" and isinstance(n.target, ast.Tuple) and isinstance(n.target.elts[0], ast.Name)}
+    for r in rec_calls:
+        st = parents.get(r.node)
+        direct = isinstance(st, ast.Assign) and len(st.targets) == 1 and isinstance(st.targets[0], ast.Subscript) and isinstance(st.targets[0].value, ast.Name) and isinstance(st.targets[0].slice, ast.Name) and st.targets[0].slice.id in idx_vars
+        splice_desc.append(norm(st)[:70] if st is not None else "?")
+        splice_ok = splice_ok and direct
+    ctx.check(splice_ok and bool(splice_desc), "I1", "replacement text is the recursive expansion of that very line", loc(fn), "", f"the result of the recursive call is used as {splice_desc}: it is not stored, as it is, under the index of the INCLUDE line it was made for")
+    # evaluated depth bound: a chain of exactly LIMIT nested files expands, one more raises ValueError
+    S1 = _Scenarios(e)
+    chain = lambda n: {f"ABS(JOIN(DIR(/r/main.map),f{k}.map))": (S1.text(f"F{k}a", f"INCLUDE f{k + 1}.map", f"F{k}b") if k < n else S1.text(f"F{k}")) for k in range(1, n + 1)}
+    S1.files = chain(LIMIT)
+    o, opened = S1.run(S1.text("R0", "INCLUDE f1.map", "R1"), "/r/main.map")
+    ctx.check(o.kind == "return" and len(opened) == LIMIT, "I1", f"{LIMIT} levels of nesting are expanded", loc(fn), f"{len(opened)} files opened", f"a chain of {LIMIT} nested includes gives {o.exc or o.value!r} after opening {len(opened)} files")
+    S1.files = chain(LIMIT + 1)
+    o, opened = S1.run(S1.text("R0", "INCLUDE f1.map", "R1"), "/r/main.map")
+    ctx.check(o.kind == "raise" and o.exc == "ValueError" and len(opened) == LIMIT, "I1", f"level {LIMIT + 1} is refused with ValueError before its file is read", loc(fn), "", f"a chain of {LIMIT + 1} nested includes gives {o.exc or 'a result'} after opening {len(opened)} files (expected ValueError after {LIMIT})")
+    # a file reached at two different depths is checked at each: via X directly its chain fits, via Y it does not
+    S1.files = {f"ABS(JOIN(DIR(/r/main.map),x{k}.map))": (S1.text(f"X{k}", f"INCLUDE x{k + 1}.map") if k < LIMIT - 1 else S1.text(f"X{k}")) for k in range(0, LIMIT)}
+    S1.files["ABS(JOIN(DIR(/r/main.map),y.map))"] = S1.text("Y", "INCLUDE x0.map")
+    o, opened = S1.run(S1.text("INCLUDE x0.map", "INCLUDE y.map"), "/r/main.map")
+    ctx.check(o.kind == "raise" and o.exc == "ValueError", "I1", "a file reached again one level deeper is bounded by its own depth", loc(fn), "", f"x0 (whose chain just fits below the root) included again through y gives {o.exc or 'a result'}: text expanded at a shallow depth is reused deeper without counting its own includes")
     for cs in facts.callers_of("parser.Parser.load_includes"):
         if cs.caller == "parser.Parser.load_includes":
             continue
@@ -127,22 +209,27 @@ def run(ctx: Ctx) -> None:
         ctx.check(b.get(depth) is None, "I1", f"caller {cs.caller} does not pass the counter", repo.loc(cs.caller.split(".")[0], cs.node), "", f"{cs.caller} passes {depth}")
 
     # ---- I2 root-relative paths ----------------------------------------------------------------
-    ctx.rule("I2", "relative include names resolve against dirname(root file name): the recursive call passes fn unchanged, the join uses os.path.dirname(fn), fn defaults to cwd only when absent, parse_file/load forward the file name", 5)
-    for cs in rec_calls:
-        b = bind_args(cs.node, fn, skip_self=True)
-        a = b.get("fn")
-        ctx.check(isinstance(a, ast.Name) and a.id == "fn", "I2", "recursive call passes fn", loc(cs.node), "", f"recursive call passes {norm(a) if a is not None else 'no fn'}: nested relative includes would resolve against the wrong directory")
-    joins = [c for c in calls_in(fn) if dotted(c.func) == "os.path.join"]
-    goodj = any(c.args and isinstance(c.args[0], ast.Call) and dotted(c.args[0].func) == "os.path.dirname" and c.args[0].args and isinstance(c.args[0].args[0], ast.Name) and c.args[0].args[0].id == "fn" for c in joins)
-    ctx.check(goodj, "I2", "join with dirname(fn)", loc(joins[0]) if joins else loc(fn), "", "relative include paths are not joined to os.path.dirname(fn)")
-    for c in joins:
-        gs = guards_at(fn, c)
-        isabs = any((not g.positive) and isinstance(g.test, ast.Call) and dotted(g.test.func) == "os.path.isabs" for g in gs) or any(g.positive and isinstance(g.test, ast.UnaryOp) and isinstance(g.test.operand, ast.Call) and dotted(g.test.operand.func) == "os.path.isabs" for g in gs)
-        ctx.check(isabs, "I2", "join only for relative names", loc(c), "", "absolute include paths are re-joined")
-    fn_stores = [(st, gs) for st, gs in walk_guarded(fn) if isinstance(st, ast.Assign) and any(isinstance(t, ast.Name) and t.id == "fn" for t in st.targets)]
-    for st, gs in fn_stores:
-        cond = any(g.positive and isinstance(g.test, ast.Compare) and isinstance(g.test.left, ast.Name) and g.test.left.id == "fn" and isinstance(g.test.ops[0], ast.Is) for g in gs)
-        ctx.check(cond and "getcwd" in norm(st.value), "I2", "fn default is the working directory, only when fn is None", loc(st), "", f"fn is overwritten: {norm(st)}")
+    ctx.rule("I2", "evaluated on a virtual file system: each INCLUDE line is replaced in place by its file's text, relative names resolve against the directory of the root file at every depth, absolute names are used as given, the working directory stands in for a missing file name; parse_file / load / parse forward the file name", 5)
+    # evaluated on a virtual file system: open_file and os.path are replaced by recorders / term
+    # builders, the lines of every file are opaque (any text that is not an INCLUDE line)
+    S_ = _Scenarios(e)
+    root = "/r/main.map"
+    rel = lambda name, base=root: f"ABS(JOIN(DIR({base}),{name}))"
+    # (1) order and splice at depth 1, both quote styles, indentation, trailing comment
+    S_.files = {rel("a.map"): S_.text("A0", "A1"), rel("b.map"): S_.text("B0")}
+    o, opened = S_.run(S_.text("L0", 'INCLUDE "a.map"', "L1", "  include 'b.map' # c", "L2"), root)
+    want = S_.text("L0", "A0", "A1", "L1", "B0", "L2")
+    ctx.check(o.kind == "return" and o.value == want, "I2", "each INCLUDE line is replaced, in place, by the text of its file", loc(fn), want.describe(), f"expansion of L0 / INCLUDE a / L1 / include b / L2 gives {(o.value if o.kind == 'return' else o.exc)!r}, expected {want.describe()!r}")
+    ctx.check(opened == [rel("a.map"), rel("b.map")], "I2", "relative names are joined to the directory of the file given", loc(fn), str(opened), f"files opened: {opened}, expected {[rel('a.map'), rel('b.map')]}")
+    # (2) nested: names inside an included file resolve against the ROOT file's directory; absolute names as they are
+    S_.files = {rel("sub/a.map"): S_.text("A0", 'INCLUDE "b.map"', "A1"), rel("b.map"): S_.text("B0", "INCLUDE /abs/c.map"), "/abs/c.map": S_.text("C0")}
+    o, opened = S_.run(S_.text('INCLUDE "sub/a.map"', "L1"), root)
+    want = S_.text("A0", "B0", "C0", "A1", "L1")
+    ctx.check(o.kind == "return" and o.value == want and opened == [rel("sub/a.map"), rel("b.map"), "/abs/c.map"], "I2", "nested includes resolve against the root file's directory; absolute names are used as given", loc(fn), str(opened), f"nested expansion opens {opened} and gives {(o.value if o.kind == 'return' else o.exc)!r}; expected {[rel('sub/a.map'), rel('b.map'), '/abs/c.map']} and {want.describe()!r}")
+    # (3) no file name given: the working directory
+    S_.files = {"ABS(JOIN(DIR(/cwd/),a.map))": S_.text("A0")}
+    o, opened = S_.run(S_.text("INCLUDE a.map"), None)
+    ctx.check(o.kind == "return" and opened == ["ABS(JOIN(DIR(/cwd/),a.map))"], "I2", "without a file name relative includes resolve against the working directory", loc(fn), str(opened), f"with fn=None the files opened are {opened} ({o.exc or ''})")
     pf = repo.func("parser.Parser.parse_file")
     for q, argname in (("parser.Parser.parse_file", "fn"), ("parser.Parser.load", "fn")):
         f2 = repo.func(q)
